@@ -403,6 +403,49 @@ def typecheck_value(t, v):
 
 
 # =================================================================================================
+# M9: primitive operators against an ABSOLUTE reference (the engine's UnaryOp / BinaryOp / ComparisonOp tables)
+# =================================================================================================
+def prim_judge(hl, ir, x, declared, count, seen, where):
+    """`x`: an ApplyUnaryPrimOp / ApplyBinaryPrimOp / ApplyComparisonOp node.  The type the Python node computes (and, at construction, the
+    type the front end declares for the expression) must be the type the ENGINE gives the operator for these operand types, and the
+    operand types must be a combination the engine accepts.  Returns [(key, message)]."""
+    from vf.hail_relational_rules import BINARY_OPS, COMPARISON_OPS, UNARY_OPS, EngineRejects, binary_prim_type, comparison_type, unary_prim_type
+
+    try:
+        if isinstance(x, ir.ApplyUnaryPrimOp):
+            ts, name, f = (x.x.typ,), UNARY_OPS.get(x.op, x.op), unary_prim_type
+        elif isinstance(x, ir.ApplyBinaryPrimOp):
+            ts, name, f = (x.left.typ, x.right.typ), BINARY_OPS.get(x.op, x.op), binary_prim_type
+        elif isinstance(x, ir.ApplyComparisonOp):
+            ts, name, f = (x.left.typ, x.right.typ), COMPARISON_OPS.get(x.op, x.op), comparison_type
+        else:
+            return []
+        got = x.typ
+    except Exception:
+        count('primitive_op_types_unavailable')
+        return []
+    if got is None or any(t is None for t in ts):
+        count('primitive_op_types_unavailable')
+        return []
+    prim = all(t in (hl.tbool, hl.tint32, hl.tint64, hl.tfloat32, hl.tfloat64) for t in ts)
+    label = f'{name}({", ".join(str(t) if prim else "non-primitive" for t in ts)})'
+    count('contract_primitive_op_' + where)
+    if prim or not isinstance(x, ir.ApplyComparisonOp):
+        count(f'contract_primitive_op_{where}:{label}')
+        seen('primitive_op_combinations_' + where, label)
+    try:
+        want = f(hl, x.op, *ts)
+    except EngineRejects as err:
+        return [('expr/primitive-op-operands-rejected-by-engine-rule', f'{type(x).__name__} {x.op} over {[str(t) for t in ts]}: the engine rule rejects it ({err}); the front end types it {got}')]
+    out = []
+    if got != want:
+        out.append(('expr/primitive-op-type-differs-from-engine-rule', f'{type(x).__name__} {x.op} over {[str(t) for t in ts]}: the Python node computes {got}, the engine rule gives {want}'))
+    if declared is not None and declared != want:
+        out.append(('expr/primitive-op-type-differs-from-engine-rule', f'{type(x).__name__} {x.op} over {[str(t) for t in ts]}: the front end declares {declared}, the engine rule gives {want}'))
+    return out[:1]
+
+
+# =================================================================================================
 # M1: the construction hook
 # =================================================================================================
 class Hook:
@@ -439,6 +482,12 @@ class Hook:
         x, t = object.__getattribute__(e, '_ir'), object.__getattribute__(e, '_type')
         cls = type(x).__name__
         ctx.seen('ir_node_classes', cls)
+        if cls in ('ApplyUnaryPrimOp', 'ApplyBinaryPrimOp', 'ApplyComparisonOp'):
+            import hail as hl
+            import hail.ir as ir
+
+            for key, msg in prim_judge(hl, ir, x, t, ctx.count, ctx.seen, 'constructed'):
+                self.pending.append((key, msg, {'ir': str(x)[:1500]}))
         if t is None:
             ctx.count('expr_untyped')
             return
@@ -554,6 +603,9 @@ class Walker:
                     ctx.seen('child_context_failures', cls + ': ' + type(err).__name__ + ' ' + str(err)[:60])
                     continue
                 self._walk(ch, cc, isinstance(x, (ir.GetField, ir.SelectFields)))
+        if isinstance(x, (ir.ApplyUnaryPrimOp, ir.ApplyBinaryPrimOp, ir.ApplyComparisonOp)):
+            for key, msg in prim_judge(self.hl, ir, x, None, ctx.count, ctx.seen, 'in_tree'):
+                self.problems.append((key, msg, x))
         if isinstance(x, ir.Join):
             return
         # the node's own rule, re-applied now
@@ -2731,6 +2783,104 @@ def run(ctx):
             nary_table_case(i, rng)
         else:
             nary_matrix_case(i, rng)
+
+    # ---- phase primop: every primitive operator over every primitive operand type -------------------------------------
+    # ApplyUnaryPrimOp / ApplyBinaryPrimOp / ApplyComparisonOp are typed twice on the Python side (the function that builds the expression
+    # and the node's `_compute_type`), and the two can agree with each other and still differ from the ENGINE's table (UnaryOp.scala /
+    # BinaryOp.scala / ComparisonOp.scala): M9 judges every such node -- at construction, in finished emitted programs and in the rebuilt
+    # trees -- against the transcribed table.  This phase applies every operator the API offers (negation, logical not, bit_not, bit_count,
+    # bit_and / or / xor, the three shifts, + - * / //, the six comparisons; ** and % which are functions, for the coercions around them) to
+    # bool / int32 / int64 / float32 / float64 operands that are table fields, typed literals and plain Python numbers (ints outside the
+    # int32 range, floats, bools), in both operand orders, then uses the results: as table fields, added to an int64 / multiplied by a
+    # float64 / compared / bit-counted again.
+    def primop_case(i, rng):
+        et.reset()
+        et_sent.reset()
+        t = hl.utils.range_table(rng.randint(1, 6))
+        ok, t = guarded('annotate', lambda: t.annotate(b=t.idx > 1, i32=t.idx * 3, i64=hl.int64(t.idx) + 2**33, f32=hl.float32(t.idx), f64=hl.float64(t.idx) / 3))
+        if not ok:
+            flush(None, ('primop-source-rejected', i), {})
+            return
+        m = TModel({}, {'idx': hl.tint32, 'b': hl.tbool, 'i32': hl.tint32, 'i64': hl.tint64, 'f32': hl.tfloat32, 'f64': hl.tfloat64}, ['idx'])
+        check_table(t, m, 'primop source')
+        kinds = ['b', 'i32', 'i64', 'f32', 'f64']
+
+        def operand(k):
+            """an operand of primitive kind k: a field, a typed literal expression, or a plain Python value the front end has to type"""
+            c = {'b': [lambda: t.b, lambda: hl.bool(True), lambda: True, lambda: ~t.b],
+                 'i32': [lambda: t.i32, lambda: hl.int32(5), lambda: 7, lambda: -3, lambda: t.idx + 1],
+                 'i64': [lambda: t.i64, lambda: hl.int64(9), lambda: 2**40, lambda: -(2**35) - 1, lambda: hl.literal(2**62), lambda: hl.int64(t.idx)],
+                 'f32': [lambda: t.f32, lambda: hl.float32(2.5)],
+                 'f64': [lambda: t.f64, lambda: hl.float64(0.5), lambda: 1.5, lambda: t.f64 * 2]}[k]
+            return rng.choice(c)()
+
+        unary = {'neg': lambda a: -a, 'not': lambda a: ~a, 'bit_not': lambda a: hl.bit_not(a), 'bit_count': lambda a: hl.bit_count(a), 'abs_neg': lambda a: -(-a)}
+        binary = {'add': lambda a, b: a + b, 'sub': lambda a, b: a - b, 'mul': lambda a, b: a * b, 'truediv': lambda a, b: a / b, 'floordiv': lambda a, b: a // b,
+                  'pow': lambda a, b: a ** b, 'mod': lambda a, b: a % b,
+                  'bit_and': lambda a, b: hl.bit_and(a, b), 'bit_or': lambda a, b: hl.bit_or(a, b), 'bit_xor': lambda a, b: hl.bit_xor(a, b),
+                  'bit_lshift': lambda a, b: hl.bit_lshift(a, b), 'bit_rshift': lambda a, b: hl.bit_rshift(a, b), 'bit_rshift_logical': lambda a, b: hl.bit_rshift(a, b, logical=True),
+                  'lt': lambda a, b: a < b, 'le': lambda a, b: a <= b, 'gt': lambda a, b: a > b, 'ge': lambda a, b: a >= b, 'eq': lambda a, b: a == b, 'ne': lambda a, b: a != b,
+                  'and': lambda a, b: a & b, 'or': lambda a, b: a | b}
+        results = []
+        trace = []
+
+        def apply(name, f, ks):
+            def go():
+                args = [operand(k) for k in ks]
+                if not any(isinstance(a, hl.expr.Expression) for a in args):
+                    args[0] = hl.expr.expressions.to_expr(args[0])       # (Python-only operands would be computed by Python)
+                return hl.expr.expressions.to_expr(f(*args))
+            ok, r = guarded(name, go)
+            ctx.count('primop_applications_' + ('accepted' if ok else 'refused'))
+            if ok and r.dtype in (hl.tbool, hl.tint32, hl.tint64, hl.tfloat32, hl.tfloat64):
+                ctx.seen('primop_api_combinations_accepted', f'{name}({",".join(ks)})->{r.dtype}')
+                results.append((f'{name}_{"_".join(ks)}', r))
+                trace.append(f'{name}({",".join(ks)})')
+
+        for name, f in unary.items():                       # every unary operator over every operand kind
+            for k in kinds:
+                apply(name, f, [k])
+        combos = [(name, a, b) for name in binary for a in kinds for b in kinds]
+        for name, a, b in rng.sample(combos, 45):           # a sample of the binary cross product (all of it over a few cases)
+            apply(name, binary[name], [a, b])
+        # downstream uses: the reported type of the result is what the next operator / the table field is typed from
+        kw = {}
+        m2 = m.copy()
+        for j, (label, r) in enumerate(rng.sample(results, min(len(results), 14))):
+            uses = [('', lambda r=r: r)]
+            if r.dtype in (hl.tint32, hl.tint64):
+                uses += [('_plus_i64', lambda r=r: r + hl.int64(1)), ('_i64_times', lambda r=r: hl.int64(5) * r), ('_bc', lambda r=r: hl.bit_count(r)), ('_bc_plus_i64', lambda r=r: hl.bit_count(r) + t.i64),
+                         ('_shl', lambda r=r: hl.bit_lshift(r, 2)), ('_cmp', lambda r=r: r < t.i64), ('_not', lambda r=r: hl.bit_not(r) + r)]
+            if r.dtype in (hl.tfloat32, hl.tfloat64, hl.tint32, hl.tint64):
+                uses += [('_times_f64', lambda r=r: r * hl.float64(0.5)), ('_neg', lambda r=r: -r), ('_div', lambda r=r: r / 2), ('_arr', lambda r=r: hl.sum([r, r]))]
+            if r.dtype == hl.tbool:
+                uses += [('_notb', lambda r=r: ~r), ('_if', lambda r=r: hl.if_else(r, t.i64, hl.int64(0)))]
+            for suffix, u in rng.sample(uses, min(len(uses), 3)):
+                ok, e = guarded('downstream' + suffix, lambda: hl.expr.expressions.to_expr(u()))
+                if ok:
+                    nm = f'p{j}_{label}{suffix}'[:60]
+                    kw[nm] = e
+                    m2.row[nm] = e.dtype
+                    ctx.count('primop_downstream_uses')
+        ok, t2 = guarded('annotate(primitive results)', lambda: t.annotate(**kw))
+        if ok:
+            ctx.count('primop_tables_annotated')
+            check_table(t2, m2, 'annotate(primitive results)')
+            t = t2
+            if rng.random() < 0.5:
+                ok, t3 = guarded('filter', lambda: t.filter(hl.rand_bool(0.5)))
+                if ok:
+                    t = t3
+            ok, r = guarded('Table.aggregate', lambda: t.aggregate(hl.struct(**{k: hl.agg.collect(t[k]) for k in list(kw)[:6]}), _localize=False))
+            if ok:
+                finish_program(r._ir, False, 'primop.aggregate')
+        sent_check_table(t, 'the finished program', final=True)
+        finish_program(t._tir, True, 'primop')
+        flush({'ops': trace[:40], 'type': str(t._tir.typ)[:300]}, ('primop', tuple(trace), str(t._tir.typ)), {'ops': trace[:60], 'table_type': str(t._tir.typ)[:800]})
+
+    N = ctx.pick(40, 320)
+    for i, rng in ctx.cases(N, 'primop'):
+        primop_case(i, rng)
 
     hook.uninstall()
     del backend.matrix_type
